@@ -284,6 +284,9 @@ def run_scenario(scenario, annotated, strategy, scratch, tag, extra=(), data_typ
     d = os.path.join(scratch, "mix_" + tag)
     shutil.rmtree(d, ignore_errors=True)
     paths = syn.materialise(w, d, gtf=bool(annotated))
+    if annotated == 4:
+        # the same annotation with its records in another order (exon lines of a transcript neither ascending nor descending)
+        syn.write_gtf(w, paths["gtf"], style="shuffled")
     out = os.path.join(d, "out")
     ex = ["--model_construction_strategy", strategy] if strategy else []
     rc = run.run_isoquant(run.base_argv(paths, out, data_type=data_type, genedb=bool(annotated), extra=ex + list(extra)), paths["home"],
